@@ -39,8 +39,9 @@ type C14Scenario struct {
 type c14Request struct {
 	tx   int
 	src  int
-	at   time.Duration
+	at   time.Duration // node time when the current event began: a lower bound of the request time
 	step int
+	atHi time.Duration // logical time plus the real time spent so far: an upper bound
 }
 
 func c14Run(sc *C14Scenario) (v *nodeViolation, flags map[string]bool) {
@@ -78,6 +79,14 @@ func c14Run(sc *C14Scenario) (v *nodeViolation, flags map[string]bool) {
 	sn.node.outputFetcher = gf
 	sn.blockCtx = roleCtx(sn.ctx, "block")
 	var clock time.Duration
+	// the node measures its request window on the real clock plus the hook's shifts; the harness
+	// knows the shifts exactly (clock) and the real part only as an interval: between zero and the
+	// real time the scenario has taken so far (race windows hold a thread for up to half a second)
+	startReal := time.Now()
+	clockHi := func() time.Duration { return clock + time.Since(startReal) }
+	// the node read its clock somewhere between the start of the current event and the moment the
+	// harness looks at what it sent: [eventStart, clockHi()]
+	eventStart := clockHi()
 	var log []c14Request
 	seenTrusted := len(sn.peer.txRequests)
 	seenUn := make([]int, len(uns))
@@ -85,7 +94,7 @@ func c14Run(sc *C14Scenario) (v *nodeViolation, flags map[string]bool) {
 		var fresh []c14Request
 		for ; seenTrusted < len(sn.peer.txRequests); seenTrusted++ {
 			if i, ok := idOf[sn.peer.txRequests[seenTrusted]]; ok {
-				fresh = append(fresh, c14Request{i, 0, clock, sn.step})
+				fresh = append(fresh, c14Request{i, 0, eventStart, sn.step, clockHi()})
 			}
 		}
 		for k, u := range uns {
@@ -93,7 +102,7 @@ func c14Run(sc *C14Scenario) (v *nodeViolation, flags map[string]bool) {
 				if gd, ok := u.sent[seenUn[k]].(*wire.MsgGetData); ok {
 					for _, inv := range gd.InvList {
 						if i, ok := idOf[inv.Hash]; ok && inv.Type == wire.InvTypeTx {
-							fresh = append(fresh, c14Request{i, k + 1, clock, sn.step})
+							fresh = append(fresh, c14Request{i, k + 1, eventStart, sn.step, clockHi()})
 						}
 					}
 				}
@@ -107,7 +116,8 @@ func c14Run(sc *C14Scenario) (v *nodeViolation, flags map[string]bool) {
 	}
 	collect()
 	// model
-	lastReq := map[int]time.Duration{}
+	lastReq := map[int]time.Duration{}   // lower bound of the time of the last request
+	lastReqHi := map[int]time.Duration{} // upper bound
 	hasReq := map[int]bool{}
 	arrived := map[int]bool{}     // body processed
 	confirmed := map[int]bool{}   // in a processed block
@@ -119,8 +129,12 @@ func c14Run(sc *C14Scenario) (v *nodeViolation, flags map[string]bool) {
 	// the logical clock is exact to the hook's shifts only; real micro/milliseconds pass as well, so
 	// the 3 s boundary itself is left undecided (50 ms either side)
 	const slack = 50 * time.Millisecond
-	active := func(i int) bool { return hasReq[i] && clock-lastReq[i] <= 3*time.Second+slack }
-	insideWindow := func(i int, at time.Duration) bool { return hasReq[i] && at-lastReq[i] < 3*time.Second-slack }
+	// active: the window may still be open (only the least possible elapsed time proves it expired)
+	active := func(i int) bool { return hasReq[i] && eventStart-lastReqHi[i] <= 3*time.Second+slack }
+	// insideWindow: even the greatest possible elapsed time is inside the window
+	insideWindow := func(i int, atHi time.Duration) bool {
+		return hasReq[i] && atHi-lastReq[i] < 3*time.Second-slack
+	}
 	requestedIn := func(fresh []c14Request, tx, src int) bool {
 		for _, r := range fresh {
 			if r.tx == tx && r.src == src {
@@ -137,17 +151,19 @@ func c14Run(sc *C14Scenario) (v *nodeViolation, flags map[string]bool) {
 			if arrived[r.tx] {
 				return &nodeViolation{"C14/request-after-arrival", fmt.Sprintf("%s: tx%d was requested from connection %d although its body had already arrived and been processed", where, r.tx, r.src)}
 			}
-			if insideWindow(r.tx, r.at) {
-				return &nodeViolation{"C14/second-request-in-window", fmt.Sprintf("%s: tx%d was requested from connection %d only %v after the previous request", where, r.tx, r.src, r.at-lastReq[r.tx])}
+			if insideWindow(r.tx, r.atHi) {
+				return &nodeViolation{"C14/second-request-in-window", fmt.Sprintf("%s: tx%d was requested from connection %d at most %v after the previous request", where, r.tx, r.src, r.atHi-lastReq[r.tx])}
 			}
 			hasReq[r.tx] = true
 			lastReq[r.tx] = r.at
+			lastReqHi[r.tx] = r.atHi
 			delete(tracked[r.src], r.tx)
 		}
 		return nil
 	}
 	tipName, tip := 1, a1
 	for n, ev := range sc.Events {
+		eventStart = clockHi()
 		where := fmt.Sprintf("event %d %s(src %d, txs %v)", n, ev.Op, ev.Src, ev.Txs)
 		if ev.Src > len(uns) {
 			continue
@@ -268,7 +284,7 @@ func c14Run(sc *C14Scenario) (v *nodeViolation, flags map[string]bool) {
 			fresh := collect()
 			for i := range expect {
 				if !requestedIn(fresh, i, ev.Src) {
-					return &nodeViolation{"C14/re-request-missing", fmt.Sprintf("%s: tx%d was requested %v ago from another peer that never delivered; connection %d announced it too and just had activity, but was not asked", where, i, clock-lastReq[i], ev.Src)}, flags
+					return &nodeViolation{"C14/re-request-missing", fmt.Sprintf("%s: tx%d was requested at least %v ago from another peer that never delivered; connection %d announced it too and just had activity, but was not asked", where, i, eventStart-lastReqHi[i], ev.Src)}, flags
 				}
 				flags["re-request"] = true
 			}
@@ -396,6 +412,7 @@ func c14Run(sc *C14Scenario) (v *nodeViolation, flags map[string]bool) {
 	// after cleanup nobody asks for a confirmed tx: give every connection activity after the window
 	sn.passTime(4 * time.Second)
 	clock += 4 * time.Second
+	eventStart = clockHi()
 	sn.ping()
 	for _, u := range uns {
 		if !u.closed {
